@@ -107,7 +107,7 @@ impl<'h> FindMatches<'h> {
     /// by the iterator, such that the next call to `next_match` will start searching for matches
     /// at the following position.
     pub fn advance_to(&mut self, position: usize) -> usize {
-        self.inner.advance_to(position)
+        self.inner.advance_to_absolute(position)
     }
 }
 
